@@ -208,7 +208,7 @@ NOT_APPLICABLE = {}
 
 PROPS = {
     "C01": {
-        "modules": ["RsddModel.Props.C01", "RsddModel.Props.C01Total", "RsddModel.Props.TieIte", "RsddModel.Props.TieOrders"],
+        "modules": ["RsddModel.Props.C01", "RsddModel.Props.C01Total", "RsddModel.Props.TieIte", "RsddModel.Props.TieOrders", "RsddModel.Props.TieBddCore"],
         "streams": [BDD_STREAM],
         "rule": BDD_RULE,
         "trusted": ["modelled not verified: unique table (C02), FxHasher (arbitrary function), unsafe aliasing of compute_table, std HashMap memo of cond_with_alloc (association list)"],
@@ -227,7 +227,7 @@ PROPS = {
                        "structurally, implementation = spec truth tables).",
     },
     "C02": {
-        "modules": ["RsddModel.Props.C02", "RsddModel.Props.C02Table", "RsddModel.Props.C02Store", "RsddModel.Props.Tie", "RsddModel.Props.TieIte"],
+        "modules": ["RsddModel.Props.C02", "RsddModel.Props.C02Table", "RsddModel.Props.C02Store", "RsddModel.Props.Tie", "RsddModel.Props.TieIte", "RsddModel.Props.TieBddCore", "RsddModel.Props.TieTables"],
         "streams": [BDD_STREAM, TBL_STREAM],
         "rule": BDD_RULE,
         "trusted": ["modelled not verified: bump allocator, FxHasher, psl as u8 (PslBound hypothesis: no probe sequence reaches 256)"],
@@ -246,7 +246,7 @@ PROPS = {
                        "robin-hood table across any number of growths; growOrig_orphans is the negative theorem for the pinned grow.",
     },
     "C16": {
-        "modules": ["RsddModel.Props.C16", "RsddModel.Props.Tie", "RsddModel.Props.TieIte"],
+        "modules": ["RsddModel.Props.C16", "RsddModel.Props.Tie", "RsddModel.Props.TieIte", "RsddModel.Props.TieBddCore", "RsddModel.Props.TieTables"],
         "streams": [BDD_STREAM, LRU_STREAM, SDD_STREAM],
         "rule": BDD_RULE,
         "trusted": ["modelled not verified: FxHasher (any function of the key)"],
@@ -261,7 +261,7 @@ PROPS = {
                        "parameters, hence builder results are cache-independent.",
     },
     "C13": {
-        "modules": ["RsddModel.Props.C13", "RsddModel.Props.Tie", "RsddModel.Props.TieFF", "RsddModel.Props.TieSem"],
+        "modules": ["RsddModel.Props.C13", "RsddModel.Props.Tie", "RsddModel.Props.TieFF", "RsddModel.Props.TieSem", "RsddModel.Props.TieOptim"],
         "streams": [RING_STREAM],
         "rule": "triples (a,b,c) per weight type: finite fields for all 7 exported primes with boundary residues {0,1,2,P/2,P/2+1,P-2,P-1}, "
                 "small and random residues; reals/EU/complex on dyadic k/8 (exact in f64); Booleans exhaustively; truncated polynomials over "
@@ -277,7 +277,7 @@ PROPS = {
         "explanation": "C13.* + Tie.* theorems; ring stream: implementation vs exact arithmetic, vs the mirrored model, and the laws on the implementation's own outputs.",
     },
     "C07": {
-        "modules": ["RsddModel.Props.C07Bdd", "RsddModel.Props.C07Sdd", "RsddModel.Props.TieSem", "RsddModel.Props.TieFF"],
+        "modules": ["RsddModel.Props.C07Bdd", "RsddModel.Props.C07Sdd", "RsddModel.Props.TieSem", "RsddModel.Props.TieFF", "RsddModel.Props.TieOptim"],
         "streams": [WMC_STREAM, HASH_STREAM],
         "rule": "diagrams taken from builder pools (three largest distinct + one random per program), random orders; normalised field weights for a "
                 "random exported prime, arbitrary integer weights 0..5, dyadic real weights; non-trivial = diagram has a node below a node",
@@ -295,7 +295,7 @@ PROPS = {
         "explanation": "C07Bdd.* theorems; wmc stream compares implementation counts with brute-force sums and the mirrored fold.",
     },
     "C08": {
-        "modules": ["RsddModel.Props.C08", "RsddModel.Props.TieOrders"],
+        "modules": ["RsddModel.Props.C08", "RsddModel.Props.TieOrders", "RsddModel.Props.TieBddCore"],
         "streams": [WMC_STREAM],
         "rule": "as C07; every diagram is smoothed over all n variables; the smoothed diagram, its paths, weighted and unweighted counts are compared",
         "trusted": ["modelled not verified: get_or_insert as structural normalisation (C02)"],
@@ -307,7 +307,7 @@ PROPS = {
         "explanation": "C08.* theorems; wmc stream checks function, paths, counts and exact equality with the mirrored smooth.",
     },
     "C03": {
-        "modules": ["RsddModel.Props.C03", "RsddModel.Props.C03Total", "RsddModel.Props.TieIte"],
+        "modules": ["RsddModel.Props.C03", "RsddModel.Props.C03Total", "RsddModel.Props.TieIte", "RsddModel.Props.TieSddCore"],
         "streams": [SDD_STREAM],
         "rule": "operation programs over CompressionSddBuilder: vtrees right-linear / left-linear / balanced / random splits over identity or shuffled "
                 "labels, compression on (3/4) and off (1/4), hooked unique-table capacity 4/8/default; non-trivial = a result has a decision node "
@@ -339,7 +339,7 @@ PROPS = {
         "explanation": "C14.* theorems; ord stream: implementation vs spec (set-theoretic definitions, root paths) and vs the mirrored model.",
     },
     "C05": {
-        "modules": ["RsddModel.Props.C05Bdd", "RsddModel.Props.C05Sdd", "RsddModel.Props.C03"],
+        "modules": ["RsddModel.Props.C05Bdd", "RsddModel.Props.C05Sdd", "RsddModel.Props.C03", "RsddModel.Props.TieCompile", "RsddModel.Props.TieBddCore"],
         "streams": [COMP_STREAM],
         "rule": "CNFs (empty formula, empty/unit clauses, repeated and complementary literals, unused indices), random partial assignments over all "
                 "variables, random expression trees over all seven constructors (depth <= 4), dtree plans for random elimination orders; BDD builder "
@@ -402,7 +402,7 @@ PROPS = {
         "explanation": "C10.* and C10Sdd.* theorems; query stream: answers vs fresh copy, scratch emptiness, tree-level values, and the DAG+scratch model.",
     },
     "C12": {
-        "modules": ["RsddModel.Props.C12", "RsddModel.Props.TieSem"],
+        "modules": ["RsddModel.Props.C12", "RsddModel.Props.TieSem", "RsddModel.Props.TieOptim"],
         "streams": [OPT_STREAM],
         "rule": "the two largest distinct diagrams of a builder pool under a random order; marginal MAP / real branch-and-bound: every subset size 0..4 of "
                 "query variables in random order, weights in eighths, non-query normalised, query weights arbitrary in [0,1]; MEU / EU branch-and-bound: "
@@ -439,7 +439,7 @@ PROPS = {
         "explanation": "C15.* theorems; cnf stream: implementation vs set-theoretic definitions on the raw clauses, vs the mirrored model; hasher states compared pairwise.",
     },
     "C17": {
-        "modules": ["RsddModel.Props.C17"],
+        "modules": ["RsddModel.Props.C17", "RsddModel.Props.TieCompile"],
         "streams": [SER_STREAM],
         "rule": "generated DIMACS texts (comment lines, header, clauses spanning lines, empty clauses, duplicate literals) through Cnf::from_dimacs, "
                 "to_dimacs and back, and through LogicalExpr::from_dimacs; generated s-expressions over up to 6 named variables (names chosen so that "
@@ -458,7 +458,7 @@ PROPS = {
         "explanation": "C17.* theorems; ser stream: real parsers/serialisers vs specification-level readers of the same text / JSON.",
     },
     "C04": {
-        "modules": ["RsddModel.Props.C04", "RsddModel.Props.TieVTree"],
+        "modules": ["RsddModel.Props.C04", "RsddModel.Props.TieVTree", "RsddModel.Props.TieTables", "RsddModel.Props.TieSddCore"],
         "streams": [SDD_STREAM],
         "rule": "as C03; with compression on, every decision node reachable from every result is checked (from its printed canonical form and truth "
                 "tables) for: primes non-false, pairwise exclusive, exhaustive, over the left vtree child's variables; subs over the right child's "
@@ -494,7 +494,7 @@ PROPS = {
         "explanation": "C18.* theorems; ffi stream: C symbols vs native API vs handle-layer model vs specification.",
     },
     "C19": {
-        "modules": ["RsddModel.Props.C19"],
+        "modules": ["RsddModel.Props.C19", "RsddModel.Props.TieCompile", "RsddModel.Props.TieBddCore"],
         "streams": [CLI_STREAM],
         "prebuild": CLI_PREBUILD,
         "rule": "the three binaries built from the working tree (feature cli) run on generated files: weighted_model_count on s-expressions over up to 6 "
